@@ -101,3 +101,41 @@ def compare(got, exp):
         if g != e:
             return ("differ", i, g, e)
     return None
+
+
+def corr(ctx, docs, headers, loose_p=0.4):
+    """correspondence of M-mixin with the real handler machine on a list of documents"""
+    rng = ctx.rng
+    lines, exp, meta = [], [], []
+    dist = {"docs": 0, "strict": 0, "loose": 0, "unmodelled_docs": 0, "events": 0}
+    for d in docs:
+        loose = rng.random() < loose_p
+        r, log = tr.traced_parse(d, headers, loose=loose)
+        last_loose = loose or (not isinstance(r, Exception) and bool(r.get("bozo")))
+        ls, ex = lines_for(log, last_loose, r)
+        if not ls:
+            continue
+        dist["docs"] += 1
+        dist["loose" if last_loose else "strict"] += 1
+        for l, e in zip(ls, ex):
+            lines.append(l)
+            exp.append(e)
+            meta.append((d, last_loose))
+        dist["events"] += len(ls)
+    got = vlib.run_driver(lines)
+    dis, seen = [], set()
+    i = 0
+    while i < len(lines):
+        j = i + 1
+        while j < len(lines) and not lines[j].startswith("mix reset"):
+            j += 1
+        c = compare(got[i:j], exp[i:j])
+        if c and c[0] == "unmodelled":
+            dist["unmodelled_docs"] += 1
+        elif c and meta[i] not in seen:
+            seen.add(meta[i])
+            if len(dis) < 20:
+                dis.append({"doc": meta[i][0], "loose": meta[i][1], "line": lines[i + c[1]][:200], "model": c[2][:400], "impl": c[3][:400]})
+        i = j
+    return {"cases": len(lines), "distinct": len(set(lines)), "unmodelled": dist["unmodelled_docs"], "disagreements": dis, "distribution": dist,
+            "samples": [{"doc": docs[0].decode("utf-8", "replace")[:300]}] if docs else []}
